@@ -362,6 +362,107 @@ func ebpfTags(pi *pkgInfo, typeName string) []string {
 	return out
 }
 
+// mapCall is one call `<expr>.<MapField>.<Method>(args…)` on a field of bpfMaps found in package
+// control: which map (ebpf tag), which method, and for the key / value argument its static Go type and
+// size (pointers dereferenced; 0 when the type is not plain data, e.g. a slice or an interface).
+type mapCall struct {
+	Map    string `json:"map"`
+	Method string `json:"method"`
+	Arg    int    `json:"arg"`
+	Size   int64  `json:"size"`
+	Type   string `json:"type"`
+	Where  string `json:"where"`
+}
+
+func mapFieldTags(pi *pkgInfo) map[string]string {
+	out := map[string]string{}
+	obj := pi.pkg.Scope().Lookup("bpfMaps")
+	if obj == nil {
+		return out
+	}
+	st, ok := obj.Type().Underlying().(*types.Struct)
+	if !ok {
+		return out
+	}
+	for i := 0; i < st.NumFields(); i++ {
+		if v := reflect.StructTag(st.Tag(i)).Get("ebpf"); v != "" {
+			out[st.Field(i).Name()] = v
+		}
+	}
+	return out
+}
+
+func findMapCalls(pi *pkgInfo, fset *token.FileSet) (calls []mapCall, listen [][2]string) {
+	tags := mapFieldTags(pi)
+	sizes := types.SizesFor("gc", "amd64")
+	for _, f := range pi.files {
+		ast.Inspect(f, func(n ast.Node) bool {
+			call, ok := n.(*ast.CallExpr)
+			if !ok {
+				return true
+			}
+			sel, ok := call.Fun.(*ast.SelectorExpr)
+			if !ok {
+				return true
+			}
+			recv, ok := sel.X.(*ast.SelectorExpr)
+			if !ok {
+				return true
+			}
+			tag, ok := tags[recv.Sel.Name]
+			if !ok {
+				return true
+			}
+			m := sel.Sel.Name
+			nargs := 0
+			switch m {
+			case "Update", "Put", "Lookup", "LookupAndDelete":
+				nargs = 2
+			case "Delete":
+				nargs = 1
+			default:
+				return true
+			}
+			for i := 0; i < nargs && i < len(call.Args); i++ {
+				tv, ok := pi.info.Types[call.Args[i]]
+				if !ok || tv.Type == nil {
+					continue
+				}
+				t := tv.Type
+				if p, ok := t.Underlying().(*types.Pointer); ok {
+					t = p.Elem()
+				}
+				var sz int64
+				if plain(t) {
+					sz = sizes.Sizeof(t)
+				}
+				pos := fset.Position(call.Pos())
+				calls = append(calls, mapCall{tag, m, i, sz, types.TypeString(t, func(p *types.Package) string { return p.Name() }),
+					fmt.Sprintf("%s:%d", filepath.Base(pos.Filename), pos.Line)})
+			}
+			// ListenSocketMap.Update(consts.K, uint64(<x>.Fd()), …)
+			if tag == "listen_socket_map" && m == "Update" && len(call.Args) >= 2 {
+				if k, ok := call.Args[0].(*ast.SelectorExpr); ok {
+					who := ""
+					ast.Inspect(call.Args[1], func(n ast.Node) bool {
+						if s, ok := n.(*ast.SelectorExpr); ok && s.Sel.Name == "Fd" {
+							if id, ok := s.X.(*ast.Ident); ok {
+								who = id.Name
+							}
+						}
+						return true
+					})
+					if x, ok := k.X.(*ast.Ident); ok && who != "" {
+						listen = append(listen, [2]string{who, x.Name + "." + k.Sel.Name})
+					}
+				}
+			}
+			return true
+		})
+	}
+	return
+}
+
 type constRow struct {
 	Name string `json:"name"`
 	Val  string `json:"val"`
@@ -544,6 +645,7 @@ func main() {
 	must(json.Unmarshal(raw, &sp))
 
 	mapTags, progTags, varTags := ebpfTags(stub, "bpfMaps"), ebpfTags(stub, "bpfPrograms"), ebpfTags(stub, "bpfVariables")
+	mapCalls, listenUse := findMapCalls(stub, stubL.fset)
 
 	// ---- json
 	js := map[string]any{"classes": classes, "packed": packed, "consts": func() []constRow {
@@ -552,7 +654,8 @@ func main() {
 			o = append(o, rows[n])
 		}
 		return o
-	}(), "mapTags": mapTags, "progTags": progTags, "varTags": varTags, "spec": sp}
+	}(), "mapTags": mapTags, "progTags": progTags, "varTags": varTags, "spec": sp,
+		"mapCalls": mapCalls, "listenUse": listenUse}
 	jb, _ := json.MarshalIndent(js, "", " ")
 	must(os.WriteFile(filepath.Join(outdir, "c19_go.json"), jb, 0o644))
 
@@ -573,6 +676,23 @@ func main() {
 	fmt.Fprintf(&b, "def goMapTags : List Name := %s\n", leanStrs(mapTags))
 	fmt.Fprintf(&b, "def goProgTags : List Name := %s\n", leanStrs(progTags))
 	fmt.Fprintf(&b, "def goVarTags : List Name := %s\n", leanStrs(varTags))
+	b.WriteString("\n/-- calls `<bpfMaps field>.Update/Lookup/Delete(key, value)` in package control: (map, method, argument index, size of the argument's static type or 0, type, where) -/\n")
+	b.WriteString("def goMapCalls : List (Name × Name × Nat × Nat × String × String) := [\n")
+	for i, c := range mapCalls {
+		fmt.Fprintf(&b, "  (%s, %s, %d, %d, %s, %s)", leanStr(c.Map), leanStr(c.Method), c.Arg, c.Size, strconv.Quote(c.Type), strconv.Quote(c.Where))
+		if i != len(mapCalls)-1 {
+			b.WriteString(",\n")
+		}
+	}
+	b.WriteString("]\n\n/-- `ListenSocketMap.Update(consts.K, uint64(<file>.Fd()), …)`: (file variable, key constant) -/\n")
+	b.WriteString("def goListenUse : List (Name × Name) := [")
+	for i, l := range listenUse {
+		if i > 0 {
+			b.WriteString(", ")
+		}
+		fmt.Fprintf(&b, "(%s, %s)", leanStr(l[0]), leanStr(l[1]))
+	}
+	b.WriteString("]\n")
 	b.WriteString("\nend DaeVerif.C19.Gen\n")
 	must(os.WriteFile(filepath.Join(leandir, "GoLayout.lean"), []byte(b.String()), 0o644))
 
